@@ -87,9 +87,9 @@ def pair_module(name, a, b, diag=False):
               'if Nat.leb (length (trans B)) (length (trans A)) then 1 else 0],\n'
               '  match find_cex_aut tblc A B ms (N.to_nat 3000) with Some (w, p, a) => [w; p; a] | None => [] end).\n' % FUEL)
     else:
-        s += ('Theorem checks : aut_equiv_check tblc A B ms (%s) = true /\\ (length (trans B) <= length (trans A))%%nat /\\ '
-              'length (trans B) = length (fin B).\n' % FUEL)
-        s += 'Proof. vm_compute. repeat split; try reflexivity. apply Nat.leb_le. reflexivity. Qed.\n'
+        s += ('Theorem checks : aut_equiv_check tblc A B ms (%s) = true /\\ Nat.leb (length (trans B)) (length (trans A)) = true /\\ '
+              'Nat.eqb (length (trans B)) (length (fin B)) = true.\n' % FUEL)
+        s += 'Proof. vm_compute. repeat split; reflexivity. Qed.\n'
         s += ('Theorem inst : forall w, Forall (fun c => In c ms) w -> forall t, accepts_tok tblc A w t <-> accepts_tok tblc B w t.\n'
               'Proof. apply (aut_equiv_check_sound (fun _ _ => false) tblc A B ms (%s)). apply checks. Qed.\n' % FUEL)
     s += 'End %s.\n' % name
